@@ -153,6 +153,9 @@ DSOK ==
     /\ Drop(DSInput(n, r), WireLen(n)) = r
     /\ (n = << <<97, 90>>, <<64, 91, 96, 123>> >> => Take(DSInput(n, r), 9) = <<2, 97, 122, 4, 64, 91, 96, 123, 0>>)
     /\ NSEC3Input(n) = Take(DSInput(n, r), WireLen(n))
+    /\ Parse(PresentDDD(n)).st = "ok" /\ Parse(PresentDDD(n)).labels = n /\ Parse(PresentDDD(n)).fq
+    /\ (HasEscUpper(PresentDDD(n), 1) <=> \E i \in 1..Len(n) : \E j \in 1..Len(n[i]) : n[i][j] >= 65 /\ n[i][j] <= 90)
+    /\ ~HasEscUpper(Present(n), 1) \/ n = << <<193, 0, 46>>, <<99, 79, 109>> >>
 HexOK ==
   kind = "zone" =>
     /\ HexDec(<<48, 57, 97, 70, 102, 65>>) = <<9, 175, 250>>
